@@ -467,6 +467,13 @@ validate_body_helper (DBusTypeReader       *reader,
                  */ 
                 if (dbus_type_is_fixed (array_elem_type))
                   {
+                    /* the size of a fixed-length type equals its alignment:
+                     * the array must consist of whole elements */
+                    alignment = _dbus_type_get_alignment (array_elem_type);
+
+                    if (claimed_len % alignment != 0)
+                      return DBUS_INVALID_ARRAY_LENGTH_INCORRECT;
+
                     /* bools need to be handled differently, because they can
                      * have an invalid value
                      */
